@@ -7,10 +7,7 @@ use super::inline::parse_divert_line;
 
 use super::{
     Line, ParsedStatement,
-    inline::{
-        parse_condition, parse_divert, split_inline_choice_divert, split_inline_divert,
-        split_text_and_tags,
-    },
+    inline::{parse_condition, parse_divert, split_inline_choice_divert, split_text_and_tags},
 };
 
 pub struct ParsedChoiceText {
@@ -397,25 +394,23 @@ pub fn parse_choice_text(input: &str) -> Result<ParsedChoiceText, CompilerError>
     if let Some((before, after)) = trimmed.split_once("[]") {
         let display = before.trim_end().to_owned();
         let raw_suffix = after.trim_start();
-        let had_space_before_inline_divert = split_inline_divert(raw_suffix)
-            .and_then(|(text, _)| text.chars().last())
-            .is_some_and(char::is_whitespace);
         let (suffix, inline_target) = split_inline_choice_divert(raw_suffix)?;
-        let suffix = if inline_target.is_some() && had_space_before_inline_divert {
-            format!("{suffix} ")
-        } else {
-            suffix.to_owned()
-        };
         // A tag ends at `[`: the text after `[]` is not part of a tag before it.
         let (start_text, start_tags) = split_text_and_tags(&display)?;
-        let (suffix, suffix_tags) = split_text_and_tags(&suffix)?;
+        let (suffix, suffix_tags) = split_text_and_tags(suffix)?;
         let selected_start = if start_tags.is_empty() {
             display.as_str()
         } else {
             start_text.trim_end()
         };
         let selected_text = if suffix.is_empty() {
-            selected_start.to_owned()
+            if inline_target.is_some() && before.ends_with(char::is_whitespace) {
+                // `* Horse [] -> knot`: the blank before `[]` separates the text
+                // from the first line of the target.
+                format!("{selected_start} ")
+            } else {
+                selected_start.to_owned()
+            }
         } else if suffix.starts_with(|c: char| c.is_ascii_punctuation() && c != '"' && c != '\'') {
             format!("{selected_start}{suffix}")
         } else {
@@ -463,7 +458,13 @@ pub fn parse_choice_text(input: &str) -> Result<ParsedChoiceText, CompilerError>
         let choice_only_text = format!("{choice_only_text}{display_suffix}");
         let display = format!("{start_text}{choice_only_text}");
         let selected_text = if end_text.is_empty() {
-            start_text.trim_end().to_owned()
+            if inline_target.is_some() {
+                // `* Signal [lantern] -> knot`: the blank before `[` separates the
+                // text from the first line of the target.
+                start_text.clone()
+            } else {
+                start_text.trim_end().to_owned()
+            }
         } else if start_text.trim().is_empty() {
             end_text
         } else if end_text
